@@ -87,6 +87,9 @@ pub enum Sig {
     OtherAddr,
     /// address, source and signature copied from the op named by `twin_of` (honest when absent)
     Lifted,
+    /// address, source and signature copied from an EARLIER op of the pool onto this (different) node:
+    /// a genuine signature replayed on content it was never made for
+    Replayed(u16),
 }
 
 #[derive(Clone, Copy, Debug, Serialize, Deserialize, PartialEq, Eq)]
@@ -493,6 +496,20 @@ impl World {
                         signature: m.signature,
                     })
                 }
+                (Sig::Replayed(x), _) if i > 0 && w.node_hash[pick_idx(x, i)] != node.hash() => {
+                    let j = pick_idx(x, i);
+                    let m = to_mirror(&w.ops[j]);
+                    source = eff[j].0;
+                    addr_kind = eff[j].1;
+                    honest = false;
+                    forged_kind = "replayed_from_another_op";
+                    from_mirror(&OpMirror {
+                        address: m.address,
+                        crdt_op: node.clone(),
+                        source: m.source,
+                        signature: m.signature,
+                    })
+                }
                 (sig, _) => {
                     let address = w.idn.address_of(addr_kind);
                     honest = true;
@@ -500,7 +517,7 @@ impl World {
                     let mut sign_addr = address;
                     let mut sign_node = node.clone();
                     match sig {
-                        Sig::Honest | Sig::Lifted => {}
+                        Sig::Honest | Sig::Lifted | Sig::Replayed(_) => {}
                         Sig::ByKey(x) => {
                             sign_key = x as usize % NKEYS;
                             if sign_key != source {
@@ -1430,6 +1447,7 @@ fn sig_strategy() -> BoxedStrategy<Sig> {
         2 => (0u8..NKEYS as u8).prop_map(Sig::ByKey),
         2 => Just(Sig::OtherContent),
         2 => Just(Sig::OtherAddr),
+        2 => any::<u16>().prop_map(Sig::Replayed),
     ]
     .boxed()
 }
